@@ -81,8 +81,12 @@ def abstract_value(v):
     if t == "list":
         return {"k": "list", "items": [abstract_value(x) for x in v["items"]], "trail": False}
     if t == "dict":
-        return {"k": "tuple", "pairs": [[{"k": "str", "v": k, "q": "double"}, {"k": "str", "v": val, "q": "double"}] for k, val in v["items"]],
-                "trail": False}
+        def scalar(x):
+            if isinstance(x, str):
+                return {"k": "str", "v": x, "q": "double"}
+            return abstract_value({"t": "bool" if isinstance(x, bool) else "int" if isinstance(x, int) else "float", "v": x})
+
+        return {"k": "tuple", "pairs": [[{"k": "str", "v": k, "q": "double"}, scalar(val)] for k, val in v["items"]], "trail": False}
     if t == "ref":
         return {"k": "str", "v": v["name"], "q": "none"}
     if t == "dtype":
@@ -129,7 +133,10 @@ def classes_of(v, acc=None):
         acc.add("meta:empty" if not v["items"] else "meta")
         for k, val in v["items"]:
             classes_of({"t": "str", "v": k}, acc)
-            classes_of({"t": "str", "v": val}, acc)
+            if isinstance(val, str):
+                classes_of({"t": "str", "v": val}, acc)
+            else:
+                acc.add("meta:number")
     elif t == "ref":
         acc.add("api:command_object" if v.get("as") == "object" else "ref")
     elif t == "dtype":
@@ -539,8 +546,10 @@ def kinds_command(draw, name, earlier, api):
             ref = lambda: {"t": "ref", "name": draw(st.sampled_from(earlier)), "as": "object" if api and draw(st.booleans()) else "name"}
             v = ref() if pn == "R" else {"t": "list", "items": [ref() for _ in range(draw(st.integers(0, 3)))]}
         else:
-            keys = draw(st.lists(st.one_of(PLAIN_TEXT, HOSTILE_TEXT.filter(lambda s: s != "")), max_size=3, unique=True))
-            v = {"t": "dict", "items": [[k, draw(st.one_of(PLAIN_TEXT, HOSTILE_TEXT))] for k in keys]}
+            keys = draw(st.lists(st.one_of(PLAIN_TEXT, HOSTILE_TEXT.filter(lambda s: s != "")), max_size=4, unique=True))
+            # metadata values may be written as numbers; equal numbers of different kind (2 and 2.0, 0 and -0.0, 1 and true) side by side
+            numbers = st.sampled_from([2, 2.0, 0, 0.0, -0.0, 1, 1.0, True, False, 1e-05, 10 ** 20, 2.5, -7])
+            v = {"t": "dict", "items": [[k, draw(st.one_of(PLAIN_TEXT, HOSTILE_TEXT, numbers, numbers))] for k in keys]}
         args.append([pn, v])
     return {"name": name, "cmd": "Kinds", "args": args}
 
